@@ -5,7 +5,7 @@ from ..core import rule
 from ..index import AnalysisError, dotted, src, walk_no_nested, names_in
 from ..cfg import CFG, const_env_step, eval3, UNK
 from ..domains import check_pred
-from ..util import node_calls, own_expr, last_name, calls_named, arg
+from ..util import node_calls, own_expr, last_name, calls_named, arg, reach_expr, pred_is, reach_conds, explore, mk_atoms
 from .slots import BTM, TAGGING, BAMFUNC, MOLITER, FRAGMENT, MOLECULE
 from . import C05_shared
 
@@ -120,31 +120,20 @@ def r1(ctx):
     # the enumerator: yields every idxstats row that has mapped or unmapped reads
     g = ctx.fn(BAMFUNC, 'get_contigs_with_reads')
     ys = [y for y in walk_no_nested(g) if isinstance(y, ast.Yield)]
-    conds = []
-    m2 = ctx.ix.module(BAMFUNC)
+    # idxstats columns are (contig, length, mapped, unmapped): the counts are the 3rd and 4th name of the row unpacking
+    unp = [s for s in walk_no_nested(g) if isinstance(s, ast.Assign) and isinstance(s.targets[0], ast.Tuple) and len(s.targets[0].elts) == 4 and 'split' in src(s.value)]
+    nm = {}
+    if len(unp) == 1 and all(isinstance(e, ast.Name) for e in unp[0].targets[0].elts):
+        nm = {unp[0].targets[0].elts[2].id: 'm', unp[0].targets[0].elts[3].id: 'u'}
+    ok = bool(ys) and bool(nm)
+    why = 'row unpacking / yields not found'
     for y in ys:
-        p = m2.parent.get(y)
-        while p is not None and p is not g:
-            if isinstance(p, ast.If) and not any(isinstance(n, ast.Name) and n.id == 'with_length' for n in ast.walk(p.test)):
-                conds.append(p.test)
-            p = m2.parent.get(p)
-    uniq = {src(c): c for c in conds}
-    ok = len(uniq) == 1
-    if ok:
-        t = list(uniq.values())[0]
-        nm = {}
-        for n in ast.walk(t):
-            if isinstance(n, ast.Name):
-                nm[n.id] = 'm' if 'unmapped' not in n.id else 'u'
-        try:
-            ncase, badp = check_pred(t, lambda e: e.get('m', 0) > 0 or e.get('u', 0) > 0, symbols=None,
-                                     constraint=lambda e: all(v >= 0 for v in e.values()), atom_name=lambda x: nm.get(src(x)), extra_consts=(0, 1))
-            ok = not badp and set(nm.values()) == {'m', 'u'}
-            why = 'yields a contig iff it has mapped or unmapped (placed) records' if ok else f'differs from "mapped > 0 or unmapped > 0": {badp[0] if badp else nm}'
-        except AnalysisError as ex:
-            ok, why = False, f'not interpretable: {ex}'
-    else:
-        why = f'{len(uniq)} different guards around the yields'
+        t = reach_expr(g.body, y, drop=lambda t_: 'with_length' in names_in(t_))
+        okk = t is not None and pred_is(t, lambda e: e['m'] > 0 or e['u'] > 0, nm, consts=(0, 1))
+        ok = ok and okk
+        why = 'yields a contig iff it has mapped or unmapped (placed) records' if okk else f'yield condition `{src(t) if t is not None else None}` differs from "mapped > 0 or unmapped > 0"'
+        if not okk:
+            break
     ctx.emit('C05-R1', ok, BAMFUNC, g, f'get_contigs_with_reads: {why}', key='enumerator-guard')
 
 
@@ -162,17 +151,12 @@ def r2(ctx):
     # the loop must exclude '*': established by C05-R1's sentinel path (a path with the sentinel and no consumption exists)
     tgt = loop.target
     cv = tgt.elts[0].id if isinstance(tgt, ast.Tuple) else tgt.id
-    guards = [s for s in walk_no_nested(loop) if isinstance(s, ast.If) and isinstance(s.test, ast.Compare) and len(s.test.ops) == 1 and
-              {src(s.test.left), src(s.test.comparators[0])} == {cv, "'*'"}]
-    ok = False
-    for s in guards:
-        if isinstance(s.test.ops[0], ast.Eq) and s.body and isinstance(s.body[-1], ast.Continue) and loop.body.index(s) == 0 if s in loop.body else False:
-            ok = True
-    if not ok:
-        # alternative: every consumption is under `contig != '*'`
-        ok = bool(guards) and all(isinstance(s.test.ops[0], ast.NotEq) for s in guards) and all(
-            any(any(x is c for x in walk_no_nested(s)) for s in guards)
-            for c in walk_no_nested(loop) if isinstance(c, ast.Call) and isinstance(c.func, ast.Attribute) and c.func.attr == 'append' and c.args and mentions(c.args[0], cv))
+    # with contig == '*' no feasible path of the loop body queues the contig (however the exclusion is written: continue guard, `pass` arm of an
+    # if/elif chain, or `!=` around every consumption)
+    appends = {src(c) for c in walk_no_nested(loop) if isinstance(c, ast.Call) and isinstance(c.func, ast.Attribute) and c.func.attr == 'append' and c.args and mentions(c.args[0], cv)}
+    rs = explore(loop.body, mk_atoms({f"{cv} == '*'": True}))
+    queued = [r for r in rs if any(c in appends for c in r['calls'])]
+    ok = bool(appends) and bool(rs) and not queued
     ctx.emit('C05-R2', ok, BTM, loop, "the contig loop skips the '*' row that get_contigs_with_reads yields for unmapped reads" if ok else
              "the contig loop can queue '*' a second time (unmapped reads written twice)", key='loop-excludes-unmapped',
              what=f"{MP}: '*' yielded by get_contigs_with_reads is queued next to the initial unmapped job")
